@@ -50,7 +50,7 @@ func c53(c *Ctx) {
 		c.Expect(FieldLoad(fPool)(put.Common().Value), put, f, "puts-into-the-buffer's-pool", "Put is invoked on something other than the buffer's pool")
 		okClr := false
 		for _, st := range storesToField(f, fPool) {
-			if ConstNil(st.Val) && st.Block() == put.Block() && instrDominates(put, st) {
+			if ConstNil(st.Val) && thenAlways(put, st) {
 				okClr = true
 			}
 		}
@@ -225,7 +225,7 @@ func c53(c *Ctx) {
 			}
 			lb, ok1 := ls[0].Val.(*ssa.BinOp)
 			ib, ok2 := adv.Val.(*ssa.BinOp)
-			c.Expect(ok1 && ok2 && lb.Op == token.SUB && ib.Op == token.ADD && FieldLoad(fLen)(lb.X) && FieldLoad(fIdx)(ib.X) && lb.Y == ib.Y && ls[0].Block() == adv.Block(), ls[0], f, fn+":same-amount", "remaining length and buffer index are not moved by the same amount")
+			c.Expect(ok1 && ok2 && lb.Op == token.SUB && ib.Op == token.ADD && FieldLoad(fLen)(lb.X) && FieldLoad(fIdx)(ib.X) && lb.Y == ib.Y && together(ls[0], adv), ls[0], f, fn+":same-amount", "remaining length and buffer index are not moved by the same amount")
 		}
 		for _, fn := range []string{"Reader.freeFirstBufferIfEmpty", "Reader.Discard"} {
 			f := c.fn(memp, fn)
@@ -240,12 +240,12 @@ func c53(c *Ctx) {
 			c.Expect(okFirst, fr, f, fn+":frees-the-first-buffer", "the freed buffer is not the first of the list")
 			okDrop, okReset := false, false
 			for _, st := range storesToField(f, fRD) {
-				if sl, ok := st.Val.(*ssa.Slice); ok && ConstInt(1)(sl.Low) && sl.High == nil && st.Block() == fr.Block() && instrDominates(fr, st) {
+				if sl, ok := st.Val.(*ssa.Slice); ok && ConstInt(1)(sl.Low) && sl.High == nil && thenAlways(fr, st) {
 					okDrop = true
 				}
 			}
 			for _, st := range storesToField(f, fIdx) {
-				if ConstInt(0)(st.Val) && st.Block() == fr.Block() {
+				if ConstInt(0)(st.Val) && together(st, fr) {
 					okReset = true
 				}
 			}
